@@ -569,6 +569,7 @@ type GInfo struct {
 	Created string
 	Label   string
 	State   string // exited | parked | blocked | running
+	Waiting bool   // blocked in a channel operation, or parked on a condition that does not hold: cannot proceed by itself
 	Site    string
 	Harness bool
 	Daemon  bool
@@ -587,9 +588,11 @@ func (s *Sim) Goroutines() []GInfo {
 			gi.State = "exited"
 		case g.parked:
 			gi.State = "parked"
+			gi.Waiting = g.pred != nil && !g.pred()
 			gi.Site = SiteName(g.site)
 		case g.blocked != 0:
 			gi.State = "blocked"
+			gi.Waiting = true
 			gi.Site = SiteName(g.blocked)
 		default:
 			gi.State = "running"
